@@ -1114,7 +1114,7 @@ PROPS["C14"] = dict(
          "extern types and values; collisions (duplicate type names, a type named like a generated vftable struct) come from the corpus and the findings witnesses; "
          "non-trivial = accepted; the implementation side runs the real pyxis::build into a fresh directory which is then listed recursively",
     level_text="Proved in Coq (Properties/C14.v): one file per non-root module at module path + .rs; a file = header, rust prologues in source order, the module's registry items "
-               "each once sorted by path, extern accessors sorted by name, rust epilogues; other backends excluded; extern/predefined items emit nothing; a second definition of a path is rejected. "
+               "each once sorted by path, extern accessors sorted by name, rust epilogues; other backends excluded; extern/predefined items emit nothing; a second definition of a path is rejected. End to end (FilesWhole.v, readers on the emitted tokens): C14_files_whole -- for every accepted collision-free build of an input with distinct module paths the written files are exactly one per non-root input module, each file is rust prologue (the input's rust blocks only) + body without opaque text + rust epilogue, and the struct/enum items read back from the file are a permutation of the module's declarations plus one <T>Vftable per vftable block (C14_declared_names_distinct: pairwise distinct, hence exactly once; C14_file_names_distinct). "
                "Correspondence compares the set of written files (real directory listing) and the ordered item list of each file; the monitor recounts structs/enums/vftable structs/accessors against the declarations "
                "and checks prologue-first / epilogue-last / foreign text absent from the generated texts.",
     level_note="Trusted: Coq kernel; model validated by this run's correspondence. Not modelled: glob, directory creation, file writes (exercised through the real build). A user type named like a generated "
@@ -1232,7 +1232,7 @@ PROPS["C03"] = dict(
                "The implementation's own verdict is compared with the *spec* (realisableb, reflected in Coq) on every "
                "enumerated description -- exhaustively on the stated small scope -- so the check does not go through the model at all for the iff; "
                "C03_model_decision_refines_core / C03_model_accepts_iff_realisable: the model's decision code (placement fold, size padding, naming, alignment checks) returns Ok exactly when the core accepts, i.e. iff the description is realisable; "
-               "the wrapper around it (attribute scanning, statement processing) is compared with the core on a sample of 3000 per run.",
+               "C03_type_build_accepts_iff (C03Whole.v): the model's whole type_build (attribute scan, statement loop, placement, alignment checks) returns Ok iff the attributes are well formed and the description is realisable, with accept's size and alignment, and an error value -- never a deferral or panic -- otherwise, for every description in the decidable class class_okb (plain fields of known size and power-of-two alignment; no vftable block, base field or defaultable marker); model, core and implementation are still compared on a sample of 3000 per run.",
     level_note="Trusted: Coq kernel; the spec C03Core.realisable as the reading of the property text (two interpretations fixed in DESIGN.md section 7: "
                "zero-length arrays keep their place but are not members; 'sole member' counts gaps); sizes/alignments of built-in types per pointer width are inputs "
                "computed by tools/c03.py; field alignments are powers of two (wf_fields).",
